@@ -45,7 +45,13 @@ pub fn gen_files(t: &mut Tape, gates: &Gates) -> Vec<FileCase> {
         let mut st = Tape::new(&sub);
         let unit = gen_unit(&mut st, gates, &p);
         let kinds: Vec<FaultKind> = ALL_FAULTS.iter().copied().filter(|k| unit.sites[k.index()] > 0).collect();
-        let (text, class) = match t.below(6) {
+        let (text, class) = match t.below(7) {
+            6 => {
+                // degenerate contents: nothing, only trivia, only unmatched text (with and without a
+                // final line break), a lone token
+                let d = *t.pick(&["", " ", "\n", "\r\n", "(* only a comment *)", "(* c *)\n", "?", "??", "@", "~", "!?@", "€", "?\n", "? ", ";", "END_VAR", "(* never closed", "'"]);
+                (d.to_string(), "degenerate")
+            }
             0 | 1 | 2 => (spell_unit(&unit, gates), "valid"),
             3 if !kinds.is_empty() => {
                 let kd = kinds[t.below(kinds.len())];
